@@ -348,7 +348,8 @@ pub(crate) fn mode(entry: &VfsEntry, octal: u32, sym: &str) -> RvResult<u32> {
                     }
                     if is_link || (c == 'd' && !entry.is_dir()) || (c == 'f' && !entry.is_file()) {
                         apply = false; // target mismatch so skip this clause only
-                    } else if c == ':' {
+                    }
+                    if c == ':' {
                         state = State::Group;
                         break;
                     }
